@@ -19,8 +19,8 @@ type recorder struct {
 
 func (r *recorder) reset() { r.events, r.mismatch = r.events[:0], r.mismatch[:0] }
 
-// ---- resource path decoders, shaped like the generated ones: read the first N key segments by
-// index, without looking at the slice length (N = number of keyed segments the method's path has)
+// ---- resource path decoders, shaped like the generated ones: N = number of keyed segments the
+// method's path has; any other number of entity keys is an error, then the keys are read by index
 
 type rpN interface{ n() int }
 type n0 struct{}
@@ -42,6 +42,9 @@ type rp[T rpN] struct{ keys []string }
 func (r *rp[T]) NewInstance() *rp[T] { return &rp[T]{} }
 func (r *rp[T]) UnmarshalResourcePath(segments []restlicodec.Reader) error {
 	var t T
+	if len(segments) != t.n() {
+		return fmt.Errorf("expected %d entity key(s) in the path, got %d", t.n(), len(segments))
+	}
 	for i := 0; i < t.n(); i++ {
 		k, err := segments[i].ReadString()
 		if err != nil {
